@@ -21,7 +21,7 @@ func registerExtras() {
 	}
 	extrasDone = true
 	propertyRules["C03"] = append(propertyRules["C03"], ruleL1Obl, ruleRefBlock)
-	propertyRules["C01"] = append(propertyRules["C01"], ruleL1Obl)
+	propertyRules["C01"] = append(propertyRules["C01"], ruleL1Obl, ruleRevalidate, ruleVerifyKey)
 	propertyRules["C09"] = append(propertyRules["C09"], ruleResponderWindow, ruleStaleCVRequest)
 	propertyRules["C14"] = append(propertyRules["C14"], ruleDurationSrc)
 	propertyRules["C10"] = append(propertyRules["C10"], ruleDurationSrc)
@@ -31,7 +31,8 @@ func registerExtras() {
 	propertyRules["C03"] = append(propertyRules["C03"], ruleDbftState)
 	propertyRules["C04"] = append(propertyRules["C04"], rulePrefix)
 	propertyRules["C12"] = append(propertyRules["C12"], rulePrefix)
-	propertyRules["C02"] = append(propertyRules["C02"], ruleVerifyKey)
+	propertyRules["C02"] = append(propertyRules["C02"], ruleVerifyKey, ruleBlockComplete)
+	propertyRules["C15"] = append(propertyRules["C15"], ruleBlockComplete)
 	propertyRules["C07"] = append(propertyRules["C07"], ruleVerifyKey)
 	propertyRules["C08"] = append(propertyRules["C08"], ruleVerifyKey)
 }
@@ -580,6 +581,9 @@ func ruleDbftState(c *RC) *RuleResult {
 		case tn == "cache":
 			r.ok("DBFT." + f.Name() + ": future-message cache (obligations in A-CACHE)")
 			continue
+		case c.A.dispatchTable("dbft."+c.Prog.fieldRole(f, f.Name())) != nil:
+			r.ok("DBFT." + f.Name() + ": constant dispatch table (assigned once by New from a literal with constant keys, never modified): configuration, not state")
+			continue
 		}
 		loc := "dbft." + c.Prog.fieldRole(f, f.Name())
 		if b, ok := f.Type().Underlying().(*types.Basic); ok && b.Kind() == types.Bool {
@@ -620,5 +624,20 @@ func ruleDbftState(c *RC) *RuleResult {
 		}
 		r.fail("DBFT."+f.Name()+"/unclassified", "", "field "+f.Name()+" ("+f.Type().String()+") of DBFT lives outside Context: the epoch writer does not reinitialise it, so what it holds survives view changes and Reset; classify it (and state what resets it) before relying on it")
 	}
+	return r
+}
+
+// G-BLOCK-COMPLETE: the cached block / pre-block is built (its transaction list is fixed by SetTransactions, and the
+// object is memoised) only when every transaction of the proposal is present; built earlier it would carry nil
+// transactions into verification and acceptance.
+func ruleBlockComplete(c *RC) *RuleResult {
+	r := &RuleResult{Rule: "G-BLOCK-COMPLETE", Kind: "GUARD", Doc: "every call of Block.SetTransactions / PreBlock.SetTransactions (the memoised block constructors) happens with all transactions of the proposal present"}
+	sites := c.sitesWhere(func(s *Site) bool {
+		return s.Kind == "call" && (s.Callee == "if:Block.SetTransactions" || s.Callee == "if:PreBlock.SetTransactions") && s.Fn.Pkg.PkgPath == modPath
+	})
+	if len(sites) < 2 {
+		r.unresolved(fmt.Sprintf("SetTransactions call sites (found %d, expected >= 2)", len(sites)))
+	}
+	c.guardRule(r, sites, c.apiList, func(s *Site, sn *Snap) *Formula { return fAllTx() }, nil)
 	return r
 }
